@@ -18,6 +18,7 @@ RULE = ('(a) random well-typed trees (generator of C05, depth<=4, memory reads a
 RULE += " Round 6: machines built with a func_read callback over a fixed backing memory image: cells of several widths at concrete addresses, read back at every width from the same address and at addresses no cell touches, directly and through a pointer the state binds to a constant (reads that start inside a cell are C07's business)."
 RULE += ' Round 7: pairs of compositions with one layout that differ in one part chosen to collide under xor-style digests (byte 0 / byte 2 of a value, exchanged arms or operands), under ^ - / & + == and as the arms of a conditional, in 7 states.'
 RULE += ' Round 8: the state-bound constants of the pairs shard include every value 0..9.'
+RULE += ' Round 9: composition slots whose contents are wider than the slot (conditionals with 32-bit constant arms, negations, constants) in the lowest, a middle and the top slot.'
 ASSUMPTIONS = ['irsem is the meaning of the IR', 'symbolic bases p/q/const are kept >= 1 MiB apart in every valuation (no aliasing outside the statement)',
                'division by zero / quotient overflow / bsf(0) are not compared']
 
